@@ -26,7 +26,12 @@ CHECK = {
         "monitor_default_ctor_then_initialize",
         "monitor_copy_then_source_destroyed", "monitor_move_then_source_destroyed", "monitor_copy_forked",
         "interference_steps", "long_prefix_2p8", "long_prefix_2p16", "long_prefix_of_stamps",
-        "long_prefix_of_heartbeats", "hb_same_value_twice", "stamps_ge_257"],
+        "long_prefix_of_heartbeats", "hb_same_value_twice", "stamps_ge_257",
+        # global locale switched during the history
+        "locale_switched_during_history", "locale_switch_before_first_evaluation",
+        "locale_switch_between_call_and_getReport", "locale_switch_to_classic", "locale_switch_to_decimal_comma",
+        "locale_switch_to_comma_and_grouping", "value_with_decimal_comma_seen",
+        "value_with_thousands_grouping_seen"],
     "required_oracles": [
         "monitor.rate_rel", "monitor.rate_zero_until_window_full", "monitor.timeout_flag",
         "monitor.timeout_forces_rate_zero", "monitor.early_heartbeat_changes_nothing",
@@ -38,9 +43,11 @@ CHECK = {
         "checkup_eq.retained_reports_stable", "checkup_gt.retained_reports_stable",
         "copy.rate_equals_source", "copy.rate_rel", "copy.timeout_flag", "copy.source_unaffected_by_copy",
         "copy.unaffected_by_later_use_of_source",
-        "interference.rate_unchanged", "interference.report_eq_unchanged", "interference.report_gt_unchanged"],
+        "interference.rate_unchanged", "interference.report_eq_unchanged", "interference.report_gt_unchanged",
+        "checkup_eq.value_punctuation_of_locale_in_force", "checkup_gt.value_punctuation_of_locale_in_force",
+        "checkup_eq.value_equals_fresh_stream_output", "checkup_gt.value_equals_fresh_stream_output"],
     "required_counters": ["stamps", "heartbeats", "timeouts", "recoveries", "nonzero_rate_histories",
-                          "interference_steps"],
+                          "interference_steps", "locale_switches"],
     "rule": "case = (expected rate in [0.5,200] Hz: round values, k/2, log-uniform, uniform; tolerance 1e-3..10; name) + "
             "one history of 1..500 events fed to RateMonitoring, CheckupEqualToRate and CheckupGreaterThanRate and "
             "compared with the reference model after every event. Data periods 1 us..10 s in modes {steady, jittered "
@@ -63,7 +70,14 @@ CHECK = {
             "classes incl. one with the same name, stream formatting state of cout and of string streams, the "
             "library's report helpers) after which rate and reports must be unchanged; runs of 2^8+k (all objects) "
             "and 2^16+k (monitor only) repetitions of one mutator (steady or alternating stamps, early heartbeats, "
-            "timeout heartbeats) before the first observation. Non-trivial = the history contains a timeout followed by a stamp that makes the "
+            "timeout heartbeats) before the first observation; in 20 % of the cases the global C++ locale is switched "
+            "at 1..3 points of the history (before anything is constructed, before an event, between "
+            "evaluate/heartBeatCallback and the getReport that observes it) among classic, decimal comma, and decimal "
+            "comma with '.' grouping by 3: the rate string must carry the punctuation of the locale in force when the "
+            "check-up formatted it (strict reading per locale; the right number in another locale's punctuation is "
+            "kind info_value_locale) and equal what a fresh std::ostringstream printed for the modelled rate at that "
+            "moment (or for one of its 8 neighbouring doubles either side); the classic locale is restored before the "
+            "case returns. Non-trivial = the history contains a timeout followed by a stamp that makes the "
             "rate non-zero again, or rolls the window over (>= W+2 stamps) with non-constant periods",
     "level_text": "exploration: the real rate monitor and both rate check-ups are driven through 3e3 (quick) / 1e6 "
                   "(thorough) generated event histories of up to 500 stamps and heartbeats; after every event the "
@@ -88,7 +102,9 @@ CHECK = {
         "reported under the ordinary kinds (a sliding window has no reason to depend on the history length)",
         "the rate check-ups hold mutexes and are neither copyable nor movable; RateMonitoring has no assignment "
         "(atomic member), so value semantics = its copy constructor (std::move selects it too)",
-        "re-initialising a monitor that has already received stamps, changing the global C++ locale, non-increasing "
+        "the rate string is 'the rate as a default-constructed stream prints it': a switch of the global C++ "
+        "locale takes effect at the next evaluation, never retroactively on a stored report",
+        "re-initialising a monitor that has already received stamps, non-increasing "
         "data stamps and expected rates outside [0.5, 200] Hz are outside the statement and not exercised",
         "single-threaded use only (C19 covers concurrency)",
         "g++ 12 ASan+UBSan runtime; asserts live (no -DNDEBUG)"],
